@@ -3,6 +3,7 @@ import FlatccModel.Num
 import FlatccModel.ScanSwap
 import FlatccModel.RefmapFault
 import FlatccModel.Reader
+import FlatccModel.VerifierWF
 import FlatccModel.Ident
 import FlatccModel.Emitter
 import FlatccModel.PrintFlush
@@ -222,6 +223,12 @@ def stepS (st : DrvState) (line : String) : DrvState × String :=
     ({ st with schema := S }, s!"schema {S.tables.length} {S.unions.length}")
   else match l.splitOn " " with
     | "verify" :: args => (st, verifyOp st.schema args)
+    | ["wf", m] =>
+      -- the hypothesis of C01_generated_verifier, evaluated on the current (translated) descriptor set
+      (st, if Flatcc.Verifier.wfB st.schema (natArg m) then "wf ok"
+           else match Flatcc.Verifier.wfFirstBad st.schema (natArg m) with
+             | some (ti, id) => s!"wf FAIL table {ti} field id {id}"
+             | none => "wf FAIL (union member or M)")
     | _ => (st, "")
 
 def identOp (args : List String) : String :=
